@@ -982,7 +982,7 @@ func c10Run(c c10Case) (v vVerdict) {
 }
 
 func c10Gen(t *rapid.T) c10Case {
-	c := c10Case{Source: rapid.SampledFrom([]string{"scripted", "scripted", "scripted", "scripted", "triangle", "simpulse", "erroring", "abaco", "udp", "udp2", "lancero", "lancero", "roach"}).Draw(t, "source"),
+	c := c10Case{Source: rapid.SampledFrom([]string{"scripted", "scripted", "scripted", "scripted", "triangle", "simpulse", "erroring", "abaco", "udp", "udp", "udp2", "lancero", "lancero", "roach"}).Draw(t, "source"),
 		Nchan: rapid.IntRange(1, 4).Draw(t, "nchan")}
 	stops := func() c10Op {
 		k := rapid.SampledFrom([]int{1, 1, 2, 3, 4}).Draw(t, "k")
@@ -1008,6 +1008,9 @@ func c10Gen(t *rapid.T) c10Case {
 	nrounds := rapid.IntRange(1, 3).Draw(t, "rounds")
 	if c.Source == "abaco" || c.Source == "udp" || c.Source == "udp2" || c.Source == "lancero" || c.Source == "roach" {
 		nrounds = rapid.IntRange(1, 2).Draw(t, "rounds2")
+	}
+	if (c.Source == "udp" || c.Source == "udp2") && c.FailBy == "" {
+		nrounds = rapid.IntRange(2, 3).Draw(t, "udprounds") // several stops per case: each may arrive in the middle of a reader tick
 	}
 	if c.FailBy == "stopcollector" || c.FailBy == "slowstop" {
 		nrounds = 2 // the same card is started again after the stop that met the driver error / took long
